@@ -4,6 +4,7 @@ package checks
 
 import (
 	"io"
+	"regexp"
 
 	"fmt"
 	"github.com/compose-spec/compose-go/v2/dotenv"
@@ -37,6 +38,9 @@ func init() {
 		return out, nil
 	})
 }
+
+// integers beyond TLC's range are written "@int:<digits>" in the tables and as bare integers in the documents
+var reBareInt = regexp.MustCompile(`"@int:(\d+)"`)
 
 func init() { Register("C09", "model_checking", C09) }
 
@@ -183,7 +187,9 @@ func C09(c *core.Ctx) {
 		}
 		return true
 	}
-	if !collect("MC_RenderDocs", "SPECIFICATION RSpec\nCHECK_DEADLOCK FALSE\n", "doc", func(m map[string]interface{}) { addDoc("render:"+asStr(m["n"]), yamlOf(m["d"])) }) {
+	if !collect("MC_RenderDocs", "SPECIFICATION RSpec\nCHECK_DEADLOCK FALSE\n", "doc", func(m map[string]interface{}) {
+		addDoc("render:"+asStr(m["n"]), reBareInt.ReplaceAllString(yamlOf(m["d"]), "$1"))
+	}) {
 		return
 	}
 	if !collect("MC_Merge", "SPECIFICATION Spec\nCONSTANTS Triples = FALSE\n Cross = FALSE\nINVARIANTS Laws\nCHECK_DEADLOCK FALSE\n", "cs", func(m map[string]interface{}) {
